@@ -73,8 +73,9 @@ def check_rays(case, ctx):
         if case.get("xfar", 1) != 1:
             X = [abs(x) * case["xfar"] + case["xfar"] for x in X]          # all coordinates of one sign, magnitude 64 .. 600
             ctx.label("crossing-far-from-origin")
-        p1 = [x - F(case["t1"]) * d for x, d in zip(X, d1)]
-        p2 = [x - F(case["t2"]) * d for x, d in zip(X, d2)]
+        tf = 256 if case.get("xfar", 1) != 1 else 1          # ... and then the rays start some hundred units away from it
+        p1 = [x - F(case["t1"]) * tf * d for x, d in zip(X, d1)]
+        p2 = [x - F(case["t2"]) * tf * d for x, d in zip(X, d2)]
         if kind == "nearmiss":
             # two lines that would cross, pulled apart by a gap far above the documented tolerance (256 eps) but tiny
             nrm = _cross3(d1, d2)
